@@ -1,7 +1,7 @@
 """Property id -> rules, and the texts that go to MANIFEST / evidence."""
 from .rules import (
     optab, sign, role, memo, state, reord, handles, raw, domain, formats,
-    grammar, cyts)
+    grammar, cyts, misc)
 
 PROPS = dict()
 NOT_BUILT = dict()
@@ -29,6 +29,7 @@ prop('C01', [
     memo.r_memo,
     memo.r_inval,
     state.r_norm,
+    optab.r_ite_rewrites,
 ],
     'every operator alias of dd._abc is interpreted through BDD.apply over '
     'the Boolean domain and compared with its connective (27 aliases, 8 '
@@ -53,6 +54,7 @@ prop('C02', [
     state.r_invmap,
     domain.r_domain,
     domain.r_rebuild,
+    memo.r_inval,
 ],
     'normal form steps of find_or_add on every path (validation, '
     'complement normalisation, elimination, unique-table lookup, insert '
@@ -71,6 +73,10 @@ prop('C03', [
     role.r_role,
     role.r_conn,
     memo.r_memo,
+    misc.r_args,
+    reord.r_stale_levels,
+    misc.r_oneshot,
+    role.r_quant_guard,
 ],
     'complement push-down in _quantify on every path; LOW/HIGH roles into '
     'find_or_add; ite(p, q, -1) under forall / ite(p, 1, q) otherwise are '
@@ -87,6 +93,8 @@ prop('C04', [
     memo.r_memo,
     domain.r_domain,
     formats.r_dispatch,
+    misc.r_args,
+    reord.r_let_decorated,
 ],
     'sign accounting in _cofactor, _compose, _vector_compose, _copy_bdd '
     '(hit and miss paths); a true value selects the HIGH successor in '
@@ -125,6 +133,7 @@ prop('C06', [
     state.r_writers,
     memo.r_inval,
     memo.r_memo,
+    misc.r_visit,
 ],
     'every insert of a node is followed by incref of each child; incref '
     'adds one, decref subtracts one only under the positive-count guard; '
@@ -146,6 +155,7 @@ prop('C07', [
     state.r_invmap,
     state.r_writers,
     raw.r_raw,
+    reord.r_live_levels,
 ],
     'swap: old children released and new children acquired for every '
     'rewritten node, candidates handed to the rooted collection, '
@@ -159,6 +169,8 @@ prop('C07', [
 prop('C08', [
     handles.r_handles,
     state.r_writers,
+    state.r_pair,
+    memo.r_inval,
 ],
     'Function.__init__ takes exactly one count on every normal path and '
     'none before a rejection; __del__ gives back exactly one, once '
@@ -177,6 +189,7 @@ prop('C08', [
     'values over the resolved call graph')
 prop('C09', [
     reord.r_reord,
+    reord.r_retry,
 ],
     'the retry protocol of _try_to_reorder as a typestate (attempt in '
     'context, requests disabled before reorder(), retry in context, '
@@ -194,6 +207,7 @@ prop('C10', [
     sign.r_sign,
     role.r_role,
     memo.r_memo,
+    misc.r_visit,
 ],
     'sign accounting in _sat_len (hit and miss) and _sat_iter; False '
     'travels with LOW and True with HIGH in the enumeration.',
@@ -207,6 +221,7 @@ prop('C11', [
     domain.r_domain,
     domain.r_rebuild,
     handles.r_wrap_target,
+    misc.r_args,
 ],
     'sign and roles in dd.bdd._copy_bdd and dd._copy._copy_bdd; rebuild '
     'through ite on the target variable.',
@@ -220,6 +235,7 @@ prop('C12', [
     domain.r_domain,
     domain.r_rebuild,
     formats.r_format,
+    raw.r_tempdir,
 ],
     'sign and roles across pickle/JSON writers and readers.',
     'file-system behaviour, shelve.',
@@ -229,6 +245,9 @@ prop('C13', [
     role.r_role,
     role.r_conn,
     memo.r_memo,
+    misc.r_args,
+    misc.r_oneshot,
+    role.r_quant_guard,
 ],
     'cofactor roles and homogeneity in _image; ite(g, HIGH, LOW); AND/OR '
     'encodings under forall.',
@@ -259,6 +278,7 @@ prop('C15', [
     memo.r_inval,
     state.r_norm,
     state.r_pair,
+    misc.r_mdd_bits,
 ],
     'MDD.apply interpreted per alias against the connectives and against '
     'BDD.apply; terminal cases of MDD.ite; sign in MDD._top_cofactor and '
@@ -270,6 +290,7 @@ prop('C16', [
     role.r_role,
     domain.r_domain,
     domain.r_rebuild,
+    misc.r_dddmp,
 ],
     'sign of complemented else-edges; THEN/ELSE of the file format reach '
     'find_or_add as HIGH/LOW; only the THEN edge is required regular.',
@@ -281,6 +302,7 @@ prop('C17', [
     raw.r_temporaries,
     reord.r_context,
     handles.r_parser,
+    raw.r_tempdir,
 ],
     'on every path of every function of dd.bdd, dd.autoref and dd._copy '
     'that writes manager state, no user-facing rejection (explicit raise '
@@ -299,6 +321,7 @@ prop('C17', [
 prop('C18', [
     sign.r_sign,
     role.r_role,
+    misc.r_visit,
 ],
     'low/high accessors return the successor of their name; succ() keeps '
     '(level, LOW, HIGH); to_nx labels value=False on LOW and carries the '
